@@ -181,6 +181,7 @@ func rcGet(port int, path string, ae string) (status int, h http.Header, body []
 	if ae != "" {
 		req.Header.Set("Accept-Encoding", ae)
 	}
+	req.Host = "pike.test" // the cache key must not depend on the port of the instance
 	resp, err := rcClient.Do(req)
 	if err != nil {
 		return 0, nil, nil, err
